@@ -3,7 +3,7 @@
 import json, subprocess
 hook_commits = subprocess.run(["git","-C","/repo","log","--format=%h %s","--grep=verif-hooks"],capture_output=True,text=True).stdout.strip().splitlines()
 CHECKS = {
- "C01": ("exploration", "5 C01", "model-based stateful PBT (proptest): generated histories x backend stacks vs reference tree model, full snapshot after every step",
+ "C01": ("exploration", "5 C01", "model-based stateful PBT (proptest): generated histories (incl. timestamp setters, 40..120-call histories, wide and deep name pools) x backend stacks (incl. overlays over the embedded fixture) vs reference tree model, full snapshot after every step; libFuzzer target fuzz_ops in thorough",
          "Held-on-everything-explored: each generated history is interpreted on the real stack and on an abstract tree; outcome classes and the complete observable tree are compared after every call. Right level because the property quantifies over unbounded histories/stackings; exploration with shrinking finds short counterexamples (it found 6 genuine defects, now fixed).",
          "trusts the reference model (pinned by the repository's own scenarios), Linux tmpfs/ext4; failed composites re-synchronise"),
  "C03": ("exploration", "5 C03", "stateful PBT with a model-free history invariant (untyped call profile)",
@@ -12,13 +12,13 @@ CHECKS = {
  "C05": ("exploration", "5 C05", "stateful PBT with metamorphic observer relations (no model)",
          "All observers are cross-checked against each other on every universe path in every reached state.",
          "quiescent states only"),
- "C08": ("exploration", "5 C08", "stateful PBT with recording wrappers around every overlay layer + deep lower-layer snapshots",
+ "C08": ("exploration", "5 C08", "stateful PBT with recording wrappers around every overlay layer + deep lower-layer snapshots; directed battery on large lower-only files; sessions outliving a removal followed by every observer",
          "Every trait call that reaches any layer is recorded; lower layers are additionally snapshotted (bytes, types, created/modified) before and after each op.",
          "atime excluded; wrappers see trait-level calls"),
- "C09": ("exploration", "5 C09", "model-based stateful PBT: union-of-layers reference model",
+ "C09": ("exploration", "5 C09", "model-based stateful PBT: union-of-layers reference model (incl. an embedded read-only lowest layer), second overlay instance over the same layers as a twin view",
          "Initial view and every later step compared with the documented union model for generated layer contents.",
-         "type-consistent layers only"),
- "C10": ("exploration", "5 C10", "phase-directed stateful PBT (remove lower entry / unrelated ops / re-create) vs model + listing scan for marker names",
+         "pre-populated layers are type-consistent, except for a directory above a same-named file of a deeper layer (first holder decides the type)"),
+ "C10": ("exploration", "5 C10", "phase-directed stateful PBT (remove lower entry / unrelated ops / re-create) vs model + listing scan for marker names + second overlay instance over the same layers (built before the history and afresh after every step)",
          "Tombstone behaviour is checked by the full snapshot against the model after every step across remove/re-create cycles with type changes.",
          "reserved names never generated"),
  "C12": ("exploration", "5 C12", "stateful PBT with an error monitor on every Err of every generated call",
